@@ -283,6 +283,15 @@ pub(super) mod pktline {
             let length = usize::from_str_radix(length, 16)
                 .map_err(|e| io::Error::new(io::ErrorKind::InvalidInput, e.to_string()))?;
 
+            // The length is chosen by the remote peer: it counts the header
+            // itself and must fit the buffer, otherwise the slices below
+            // (and the caller's) would panic.
+            if length < HEADER_LEN || length > buf.len() {
+                return Err(io::Error::new(
+                    io::ErrorKind::InvalidInput,
+                    "invalid packet-line length",
+                ));
+            }
             self.read_exact(&mut buf[HEADER_LEN..length])?;
 
             Ok(length)
